@@ -6,7 +6,7 @@ EXTENDS Query, Json
 CONSTANT Mode        \* "exhaustive" | "random"
 VARIABLE ast
 
-A(k) == [k |-> k, n |-> 0, lo |-> 0, hi |-> 0, s |-> <<>>, p |-> 0, h |-> 0, bits |-> 32, name |-> "", tok |-> ""]
+A(k) == [k |-> k, n |-> 0, lo |-> 0, hi |-> 0, s |-> <<>>, p |-> 0, h |-> 0, bits |-> 32, name |-> "", tok |-> "", conv |-> ""]
 Lin(f, op, c, ms) == [A("lin") EXCEPT !.name = f, !.tok = op, !.n = c, !.s = ms]
 IP(a, b, c, d) == ((a * 256 + b) * 256 + c) * 256 + d
 
@@ -29,12 +29,16 @@ DataAtoms == {
     [A("cdata") EXCEPT !.tok = "AA"], [A("sdata") EXCEPT !.tok = "BB"], [A("cdata") EXCEPT !.tok = "CC"],
     [A("data") EXCEPT !.tok = "BB"] }
 
+\* payload filters with a converter selector (only outside THEN chains)
+ConvAtoms == {
+    [A("cdata") EXCEPT !.tok = "AA", !.conv = "a"], [A("cdata") EXCEPT !.tok = "AA", !.conv = "b"],
+    [A("sdata") EXCEPT !.tok = "BB", !.conv = "a"], [A("cdata") EXCEPT !.tok = "CC", !.conv = "a"] }
 SubAtoms == {[A("sub_port") EXCEPT !.n = 1000], [A("sub_id") EXCEPT !.name = "tag/x"]}
 At(a)     == [op |-> "atom", a |-> a]
 Not(x)    == [op |-> "not", x |-> x]
 Bin(o, x, y) == [op |-> o, x |-> x, y |-> y]
 
-Lits     == {At(a) : a \in PlainAtoms \cup DataAtoms} \cup {Not(At(a)) : a \in PlainAtoms \cup DataAtoms}
+Lits     == {At(a) : a \in PlainAtoms \cup DataAtoms \cup ConvAtoms} \cup {Not(At(a)) : a \in PlainAtoms \cup DataAtoms \cup ConvAtoms}
 DataLits == {At(a) : a \in DataAtoms}
 \* negated elements of a chain only with a direction (a negated either-direction atom is a conjunction, not a chain)
 NegDataLits == {Not(At(a)) : a \in {d \in DataAtoms : d.k # "data"}}
